@@ -74,6 +74,43 @@ impl<T: Sync + Send + 'static> Nucleo<T> {
     }
 }
 
+/// Drop-in for `std::sync::atomic::AtomicBool` in `lib.rs` / `worker.rs` (the cancel flag and the
+/// notification flag): every load and store is a program point of its own (`atomic:load` /
+/// `atomic:store`, datum = the flag's address), so a controlled scheduler sees each access to the
+/// flags wherever the code performing it sits. Dereferences to the real atomic for code that
+/// takes `&AtomicBool` (the sort).
+pub struct FlagBool(AtomicBool);
+
+impl FlagBool {
+    pub fn new(v: bool) -> Self {
+        FlagBool(AtomicBool::new(v))
+    }
+    #[inline]
+    pub fn load(&self, order: Ordering) -> bool {
+        point("atomic:load", self as *const FlagBool as u64);
+        self.0.load(order)
+    }
+    #[inline]
+    pub fn store(&self, v: bool, order: Ordering) {
+        point("atomic:store", self as *const FlagBool as u64);
+        self.0.store(v, order)
+    }
+}
+
+impl std::ops::Deref for FlagBool {
+    type Target = AtomicBool;
+    fn deref(&self) -> &AtomicBool {
+        &self.0
+    }
+}
+
+impl<T: Sync + Send + 'static> Nucleo<T> {
+    /// Address reported by the accesses to the notification flag.
+    pub fn verif_should_notify_addr(&self) -> u64 {
+        Arc::as_ptr(&self.should_notify) as u64
+    }
+}
+
 /// Public facade over the crate-private lock-free vector.
 pub struct VerifVec<T>(boxcar::Vec<T>);
 
